@@ -77,17 +77,19 @@ Deliver(s, cs) ==
 
 \* readChunk() given the data the source returned (<<>> = end of source)
 \* ASSUMED: sources return the empty string only at their end (the quantifier says read sizes >= 1).
-\* ASSUMED: withholding a trailing LEAD SURROGATE follows the code in both configurations (on a UCS-4 build
-\* it only moves chunk boundaries; every surrogate code point is an error on its own, pairs are not joined).
+\* A trailing LEAD SURROGATE is withheld exactly like a CR (on a UCS-4 build this only moves chunk boundaries:
+\* every surrogate code point is an error on its own, pairs are not joined).
 ReadChunk(s, data) ==
     LET p == PosIn(s, Len(s.chunk))
         base == [s EXCEPT !.pl = p[1], !.pc = p[2], !.chunk = <<>>, !.off = 0, !.cr = FALSE]
         d1 == s.held \o data
     IN IF s.held = <<>> /\ data = <<>> THEN [ok |-> FALSE, s |-> base]
        ELSE LET lastc == d1[Len(d1)]
-                wh == IF lastc = CR
-                      THEN (IF On("lone-cr-chunk") THEN Len(d1) > 1 ELSE data # <<>>)
-                      ELSE IsLead(lastc) /\ Len(d1) > 1
+                \* code: only a chunk of more than one character gives up its last character.  Intended (= the
+                \* repaired readChunk): a read that consists of a single CR / lead surrogate is withheld as well
+                \* and the next read is joined to it (s.held = <<>> then means that data is that single character;
+                \* at the end of the source the withheld character is flushed as before).
+                wh == (lastc = CR \/ IsLead(lastc)) /\ (Len(d1) > 1 \/ (~On("lone-cr-chunk") /\ s.held = <<>>))
                 kept == IF wh THEN Front(d1) ELSE d1
                 lone == ~wh /\ d1 = <<CR>> /\ data # <<>>
                 dbl == s.cr /\ data # <<>> /\ data[1] = LF        \* the LF of a CR LF pair is delivered a second time
@@ -139,7 +141,12 @@ Unget(s, c) ==
          IN IF s.off = 0
             THEN IF On("unget-prepend-position")
                  THEN [g EXCEPT !.chunk = <<c>> \o @, !.fired = @ \cup {"unget-prepend-position"}]
-                 ELSE [g EXCEPT !.chunk = <<c>> \o @, !.pl = tp[1], !.pc = tp[2]]
+                 ELSE \* intended (= the repaired unget): the character is taken out of the position of the chunk start
+                      \* again.  For an ungotten LF the column of the line it ended is not known to the stream (it
+                      \* keeps no history): the line is corrected, the column stays as it is until the LF is consumed
+                      \* again (PositionOK carves exactly this out; the tokenizer never ungets an LF at a chunk start).
+                      IF c = LF THEN [g EXCEPT !.chunk = <<c>> \o @, !.pl = @ - 1]
+                      ELSE [g EXCEPT !.chunk = <<c>> \o @, !.pc = @ - 1]
             ELSE [g EXCEPT !.off = @ - 1]
 
 -----------------------------------------------------------------------------
@@ -149,7 +156,9 @@ RawSeen(s, raw) == IF s.held = <<>> THEN raw ELSE Front(raw)
 Refines(s, raw) == /\ s.out \o Buffered(s) = Norm(RawSeen(s, raw))
                    /\ s.held # <<>> => (raw # <<>> /\ s.held = <<Last(raw)>>)
 GhostOK(s) == <<s.il, s.ic>> = TextPos(s.out)
-PositionOK(s) == Pos(s) = <<s.il + 1, s.ic>>
+\* the line is always exact; the column is exact unless an ungotten LF is waiting to be delivered again
+LfPending(s) == \E i \in 1..s.ug : Buffered(s)[i] = LF
+PositionOK(s) == Pos(s)[1] = s.il + 1 /\ (LfPending(s) \/ Pos(s)[2] = s.ic)
 \* the error list is a function of the high-water mark of the delivered text
 ErrorsOK(s) == /\ s.errs = s.ierr
                /\ s.ierr = InvalidCount(SubSeq(s.out \o Buffered(s), 1, Len(s.out) + s.ug))
